@@ -13,6 +13,13 @@ pub fn as_i32(v: &[Option<f64>]) -> Vec<i32> {
 pub fn as_i64(v: &[Option<f64>]) -> Vec<i64> {
     v.iter().map(|x| x.expect("null in integer series") as i64).collect()
 }
+/// i64 series parsed token by token (exact also beyond 2^53, where f64 cannot tell neighbours apart)
+pub fn i64_series(r: &Req, key: &str) -> Vec<i64> {
+    r.list(key)
+        .iter()
+        .map(|t| t.parse::<i64>().unwrap_or_else(|_| crate::proto::rat_to_f64(t).expect("null in integer series") as i64))
+        .collect()
+}
 pub fn as_of64(v: &[Option<f64>]) -> Vec<Option<f64>> {
     v.to_vec()
 }
@@ -39,7 +46,7 @@ macro_rules! with_xs_all {
             "f64" => { let $v = $crate::types::as_f64(&__s); $body },
             "f32" => { let $v = $crate::types::as_f32(&__s); $body },
             "i32" => { let $v = $crate::types::as_i32(&__s); $body },
-            "i64" => { let $v = $crate::types::as_i64(&__s); $body },
+            "i64" => { let _ = &__s; let $v = $crate::types::i64_series($r, $key); $body },
             "of64" => { let $v = $crate::types::as_of64(&__s); $body },
             "oi32" => { let $v = $crate::types::as_oi32(&__s); $body },
             t => panic!("unknown element type {t}"),
@@ -55,7 +62,7 @@ macro_rules! with_xs_num {
             "f64" => { let $v = $crate::types::as_f64(&__s); $body },
             "f32" => { let $v = $crate::types::as_f32(&__s); $body },
             "i32" => { let $v = $crate::types::as_i32(&__s); $body },
-            "i64" => { let $v = $crate::types::as_i64(&__s); $body },
+            "i64" => { let _ = &__s; let $v = $crate::types::i64_series($r, $key); $body },
             t => panic!("unsupported element type {t}"),
         }
     }};
